@@ -384,6 +384,8 @@ def gen_static(g, depth, ptypes=None, out=None, budget=None, kw_ok=False, ret_fr
         kwp = {"z": ["F", "real"]}
         env.append((["kw", "z"], ["F", "real"]))
     nst = rng.randint(1, P["max_stmts"])
+    if rng.random() < P.get("empty_static", 0.06):
+        nst = 0  # a deterministic generative function (no choices), as in the docs' `inc` kernels
     stmts = []
     used = set()
     # visit order must not coincide with alphabetical order: JAX rebuilds dicts
